@@ -1,6 +1,6 @@
 SPECIFICATION FairSpec
 CONSTANTS
-  NT = 2
+  NT = 3
   NP = 1
   NS = 1
   Cap = 2
